@@ -838,7 +838,7 @@ def run_histories(ctx, n_hist, tag):
             if m is None:
                 failures.append({"key": "model-run-failed", "what": "the Coq reference could not be evaluated: %s" % mlog[-200:], "replay": rep})
                 continue
-            mtr, mout = m
+            mtr, mout = m[:2]
             if "nofuel" in mout:
                 continue
             st["ministar"] += 1
@@ -898,7 +898,11 @@ def corpus_cases(ctx):
         for line in open(p, encoding="utf-8"):
             line = line.strip()
             if line and not line.startswith("#"):
-                out.append(json.loads(line))
+                e = json.loads(line)
+                # cases that need minutes and gigabytes (a 4 GiB string) only run in the thorough tier and in replays
+                if e.get("tier") == "thorough" and ctx.tier != "thorough":
+                    continue
+                out.append(e)
     return out
 
 
@@ -907,7 +911,7 @@ def run_corpus(ctx):
     cases = []
     for e in entries:
         files = ([] if e.get("no_prelude") else [{"name": "prelude.star", "src": PRELUDE}]) + [{"name": "c%d.star" % i, "src": s} for i, s in enumerate(e["steps"])]
-        cases.append({"kind": "run", "files": files, "probe": ctx.probe, "probe_each": True, "timeout_ms": 120000, "disable_gc": e.get("disable_gc", False),
+        cases.append({"kind": "run", "files": files, "probe": ctx.probe, "probe_each": True, "timeout_ms": e.get("timeout_ms", 120000), "disable_gc": e.get("disable_gc", False),
                       "interleave_fresh": e.get("interleave_fresh", False), "transcript": e.get("interleave_fresh", False)})
     res, deaths = run_resilient(ctx, cases, "corpus")
     failures = []
@@ -1043,7 +1047,7 @@ def replay(ctx, rep):
         elif kind == "corpus":
             e = r["entry"]
             case = {"kind": "run", "files": [{"name": "prelude.star", "src": PRELUDE}] + [{"name": "c%d.star" % i, "src": s} for i, s in enumerate(e["steps"])],
-                    "probe": ctx.probe, "probe_each": True, "timeout_ms": 60000, "disable_gc": e.get("disable_gc", False)}
+                    "probe": ctx.probe, "probe_each": True, "timeout_ms": e.get("timeout_ms", 60000), "disable_gc": e.get("disable_gc", False)}
         else:
             case = dict(r["case"], probe=ctx.probe)
         res, deaths = run_resilient(ctx, [case], "replay")
